@@ -169,8 +169,8 @@ class Search:
         ever = set(live_ids(tree)) | set(retired)
         if not ever:
             return
-        if isinstance(lock, int) and lock > max(ever):
-            return
+        if isinstance(lock, int) and (lock > max(ever) or lock == 0):
+            return      # (0 is the tool's "no IDs left" marker: nothing can be handed out any more)
         if lock is None and not retired - set(live_ids(tree)):
             # no lock at all: the next run scans the code; only retired IDs above the tree maximum are at risk
             if not [r for r in retired if r > max(live_ids(tree) + [0])]:
@@ -398,6 +398,9 @@ def run(tier, v):
     t2 = tuple((f, tuple(st for st in stmts if st[1] != mx)) for f, stmts in t1)
     t2 = tuple((f, st) for f, st in t2 if st) or t2
     roots.append(("lock-ahead-of-tree", (t2, x.lock, frozenset({mx}))))
+    # the far end of the ID range (hand-made: the tool cannot be made to count that far): the last ID, then "no IDs left"
+    roots.append(("ids-near-the-end-of-the-range-no-lock", ((("a.rs", ((1, 4294967294),)),), None, frozenset())))
+    roots.append(("lock-at-the-last-id", ((("a.rs", ((1, 5),)),), 4294967295, frozenset())))
     s.run(roots)
     count_sweep(v, ex, s, tier)
     recovery_sweep(v, ex, s, tier)
@@ -410,7 +413,7 @@ def run(tier, v):
     v.coverage["max_depth"] = s.max_depth
     v.coverage["dominance_failures_without_concrete_reuse"] = s.dominance_notes
     v.coverage["bounds"] = {"max_files": s.max_files, "max_live_statements": s.max_stmts, "depth": s.depth, "faulty_runs_per_history": s.max_faulty}
-    v.subspace("BFS over (tree, lock, retired IDs) from 3 start states; events: add/newfile/del_max/del/delfile, check, edit, and edit with one "
+    v.subspace("BFS over (tree, lock, retired IDs) from 5 start states; events: add/newfile/del_max/del/delfile, check, edit, and edit with one "
                "kill-after / I/O failure / SIGTERM / SIGINT at every operation of that run", len(s.seen), exhaustive=not s.capped,
                **({"wall_cap_hit_s": s.wall_cap, "all_states_of_depth_below_this_were_expanded": s.completed_depth} if s.capped else {}))
     samples = [k for k in list(s.seen)[:400:80]]
